@@ -12,7 +12,8 @@ Line(k, name, lo, hi, tag) == [k |-> k, name |-> name, lo |-> lo, hi |-> hi, tag
 T3 == [MA |-> <<Res("RA", 1, 2), Res("RB", 2, 3), Res("RB", 3, 2)>>,
        MB |-> <<Res("RB", 1, 2), Res("RA", 2, 2)>>,
        MC |-> <<Res("RB", 1, 1), Res("RB", 2, 2), Res("RA", 3, 2), Res("RB", 4, 2)>>]
-T4 == [MA |-> T3.MA, MB |-> T3.MB, MC |-> T3.MC, LG |-> <<Res("W", 1, 1), Res("V", 2, 1)>>]
+\* ligand residues get their own atom names: residues with equal atom names and bonds share one template (and volume), see C15
+T4 == [MA |-> T3.MA, MB |-> T3.MB, MC |-> T3.MC, LG |-> <<[rn |-> "W", id |-> 1, atoms |-> <<"w1">>], [rn |-> "V", id |-> 2, atoms |-> <<"v1">>]>>]
 Base == [fam |-> "", mols |-> <<>>, types |-> T3, split |-> <<>>, bld |-> <<>>, vols |-> <<>>, start |-> <<>>, lig |-> <<>>]
 SeqsUpTo(S, n) == UNION {[1..k -> S] : k \in 1..n}
 MolNames == {"MA", "MB", "MC"}
@@ -24,7 +25,7 @@ FMol(n) == \E ms \in SeqsUpTo(MolNames, n), nm \in MolNames, lo \in R05, hi \in 
              InitCase([Base EXCEPT !.fam = "mol", !.mols = ms,
                           !.bld = <<Line("mol", nm, lo, hi, 0), Line("geom", "RB", 1, 3, 1), Line("rw", "RA", 1, 4, 2)>>])
 (* ---- molecule-level directives of a block (distance restraint between nodes 0 and 1, persistence length) ---- *)
-FMolD == \E ms \in SeqsUpTo({"MA", "MB"}, 4), nm \in {"MA", "MB"}, lo \in R05, hi \in R05, k \in {"dist", "pers"} :
+FMolD == \E ms \in SeqsUpTo({"MA", "MB"}, 3), nm \in {"MA", "MB"}, lo \in R05, hi \in R05, k \in {"dist", "pers"} :
            InitCase([Base EXCEPT !.fam = "mold", !.mols = ms, !.bld = <<Line("mol", nm, lo, hi, 0), Line(k, "", 0, 1, 3)>>])
 (* ---- residue directive: every residue-name sequence of length 1..4, first residue id 1 or 2 ---- *)
 FRes == \E rs \in SeqsUpTo({"RA", "RB"}, 4), off \in {0, 1}, kd \in {"geom", "rw"}, rn \in {"RA", "RB"}, lo \in R05, hi \in R05 :
@@ -48,7 +49,8 @@ Specs(mols, idxs, rns, ids) ==
     : hm \in BOOLEAN, mo \in mols, hi \in BOOLEAN, ix \in idxs, hr \in BOOLEAN, rn \in rns, hd \in BOOLEAN, id \in ids }
 StartMols == <<"MA", "MB", "MA", "MC", "MB">>
 \* domain: a specification finds a residue in every molecule it selects (otherwise the code raises IndexError)
-StartInDomain(c, sp) == \A m \in SpecMols(c, sp) : SpecRes(PNodes(c, m), sp) # {}
+StartInDomain(c, sp) == /\ \A m \in SpecMols(c, sp) : SpecRes(PNodes(c, m), sp) # {}
+                        /\ (Contradictory(c, sp) => SpecRes(PNodes(c, sp.idx), sp) # {})
 FStart == LET b == [Base EXCEPT !.fam = "start", !.mols = StartMols] IN
           \E sp \in Specs(MolNames, 0..4, {"RA", "RB"}, 1..4) : StartInDomain(b, sp) /\ InitCase([b EXCEPT !.start = <<sp>>])
 \* two specifications naming disjoint sets of molecules
@@ -71,7 +73,7 @@ LigInDomain(c, h, l) ==
   IN /\ {x[1] : x \in hosts} \cap ligm = {}
      /\ \A m \in ligm : SpecRes(PNodes(c, m), l) # {}
 FLig == LET b == [Base EXCEPT !.fam = "lig", !.mols = LigMols, !.types = T4] IN
-        \E h \in HostSpecs, l \in LigSpecs, v \in {<<>>, <<"W", "V", "RA", "RB">>} :
+        \E h \in HostSpecs, l \in LigSpecs, v \in {<<>>, <<"W", "V">>} :
            /\ LigInDomain(b, h, l) /\ (v = <<>> \/ ~l.hasId)
            /\ InitCase([b EXCEPT !.lig = <<[h |-> h, l |-> l]>>, !.vols = v])
 \* two -lig options with disjoint ligand molecules
@@ -94,7 +96,7 @@ FSplit2 == \E a \in Asgs(2), b \in Asgs(3) :
                           !.split = <<[rn |-> "RA", parts |-> PartsOf(a, 2)], [rn |-> "RB", parts |-> PartsOf(b, 3)]>>])
 
 (* ---- options address the residues -split creates (ids from 0) ---- *)
-ComboTypes == [MB |-> <<Res("RB", 1, 3), Res("RB", 2, 3)>>, LG |-> <<Res("W", 1, 1)>>]
+ComboTypes == [MB |-> <<Res("RB", 1, 3), Res("RB", 2, 3)>>, LG |-> <<[rn |-> "W", id |-> 1, atoms |-> <<"w1">>]>>]
 FCombo == \E r \in {<<0, 1>>, <<0, 3>>, <<2, 3>>, <<1, 2>>}, q \in {<<0, 1>>, <<0, 3>>, <<2, 4>>, <<1, 2>>, <<0, 5>>} :
           InitCase([Base EXCEPT !.fam = "combo", !.mols = <<"MB", "LG", "MB">>, !.types = ComboTypes, !.vols = <<"W">>,
                          !.split = <<[rn |-> "RB", parts |-> <<[nn |-> "X", atoms |-> <<"a1">>], [nn |-> "Y", atoms |-> <<"a3", "a2">>]>>]>>,
@@ -102,7 +104,9 @@ FCombo == \E r \in {<<0, 1>>, <<0, 3>>, <<2, 3>>, <<1, 2>>}, q \in {<<0, 1>>, <<
                          !.start = <<Sp(TRUE, "MB", FALSE, 0, TRUE, "Y", TRUE, 3)>>,
                          !.lig = <<[h |-> Sp(FALSE, "", TRUE, 2, TRUE, "X", TRUE, 0), l |-> Sp(TRUE, "LG", FALSE, 0, FALSE, "", FALSE, 0)]>>])
 
-Rest == FMolD \/ FRes \/ FMulti \/ FMultiR \/ FStart \/ FStart2 \/ FLig \/ FLig2 \/ FSplit \/ FSplit2 \/ FCombo
+RestA == FMolD \/ FRes \/ FMulti \/ FMultiR
+RestB == FStart \/ FStart2 \/ FLig \/ FLig2 \/ FSplit \/ FSplit2 \/ FCombo
+Rest == RestA \/ RestB
 QuickInit == FMol(4) \/ Rest
 FullInit == FMol(5) \/ Rest
 QuickSpec == QuickInit /\ [][Next]_vars
